@@ -354,3 +354,23 @@ CHECKS['C11'] = dict(
     min_counters={'quick': {'ctl_sets': 100000, 'ctl_illegal_refused': 30000, 'ctl_legal_readback_ok': 30000, 'msctl_sets': 30000, 'alloc_faults_reported': 3000, 'honour_packets': 100000, 'honour_forced_channels_ok': 10000},
                   'thorough': {'ctl_sets': 2000000}},
 )
+
+CHECKS['C14'] = dict(
+    level='exploration',
+    rule="Each case is a fresh (forked) process in which 2..32 threads are released together by a barrier before any libopus call has been "
+         "made; every thread creates, drives and destroys its own objects (encoder with random ctl history incl. hard-CBR SILK / decoder on "
+         "hostile packets / encoder+decoder pair with losses / surround multistream pair / repacketizer + pad / projection pair), with "
+         "sched_yield, usleep and busy-wait injected before API calls and a quarter of the threads pinned to random CPUs; 16 such processes "
+         "run side by side (oversubscribed cores force preemption). Oracles: zero ThreadSanitizer reports (tsan flavour) and, per thread, "
+         "digest of all outputs == digest of the same workload re-run serially. Distinct = interleaving signature (order in which the "
+         "threads' API calls were observed through a relaxed atomic counter).",
+    assumptions=COMMON_ASSUME + ["ThreadSanitizer's happens-before analysis covers the accesses that executed; the schedules explored are those the OS produced under oversubscription and injected delays",
+                                 "the monitor shares one relaxed atomic counter between threads (no happens-before edge) and nothing else"],
+    evals_counter='processes',
+    runs=[
+        dict(h='h_c14.c', mode='threads', flavour='tsan', n={'quick': 480, 'thorough': 6000}, timeout={'quick': 1500, 'thorough': 7200}),
+        dict(h='h_c14.c', mode='threads', flavour='prod', n={'quick': 960, 'thorough': 12000}),
+    ],
+    min_nontrivial={'quick': 1000, 'thorough': 10000},
+    min_counters={'quick': {'threads': 10000, 'api_operations': 150000}, 'thorough': {'threads': 50000}},
+)
